@@ -305,6 +305,39 @@ func cmdCheck(args []string) int {
 			obls = append(obls, o)
 		}
 	}
+	// vacuity guard: assumptions in force must leave at least one return of every function reachable
+	vacuity := map[string]string{}
+	var vacuous []string
+	{
+		type vr struct {
+			name string
+			ok   int
+			n    int
+		}
+		ch := make(chan vr, len(results))
+		for _, r := range results {
+			go func(r *FuncResult) {
+				if r.Script == nil || len(r.Covers) == 0 {
+					ch <- vr{r.Func, 0, 0}
+					return
+				}
+				ok := 0
+				for _, c := range v.coverCheck(r) {
+					if c == "" {
+						ok++
+					}
+				}
+				ch <- vr{r.Func, ok, len(r.Covers)}
+			}(r)
+		}
+		for range results {
+			x := <-ch
+			vacuity[x.name] = fmt.Sprintf("%d/%d returns reachable", x.ok, x.n)
+			if x.n > 0 && x.ok == 0 {
+				vacuous = append(vacuous, x.name)
+			}
+		}
+	}
 	// lemmas
 	lobls, lunsup := v.lemmaObligations(*prop)
 	obls = append(obls, lobls...)
@@ -359,6 +392,13 @@ func cmdCheck(args []string) int {
 		os.WriteFile(p, data, 0o644)
 		lines = append(lines, fmt.Sprintf("VIOLATION property=%s replay=%s no-failing-input-found", *prop, p))
 	}
+	for _, f := range vacuous {
+		violations++
+		p := filepath.Join(replayDir, sanitize("vacuous-"+f)+".json")
+		data, _ := json.MarshalIndent(map[string]interface{}{"property": *prop, "obligation": "vacuity:" + f, "detail": "no return of the function is reachable under the assumptions in force (contradictory requires/contracts): proofs of this function would be vacuous"}, "", " ")
+		os.WriteFile(p, data, 0o644)
+		lines = append(lines, fmt.Sprintf("VIOLATION property=%s replay=%s no-failing-input-found", *prop, p))
+	}
 	// registered obligations must still be generated
 	for _, e := range expected {
 		if byLabel[e] == 0 {
@@ -392,7 +432,7 @@ func cmdCheck(args []string) int {
 		extra = append(extra, o.Name)
 	}
 	wall := time.Since(t0).Seconds()
-	ev := evidenceData{fnames: fnames, reports: reports, trusted: tb, notes: notes, unclaimed: extra, solverMs: solverMs, known: knownHits}
+	ev := evidenceData{fnames: fnames, reports: reports, trusted: tb, notes: notes, unclaimed: extra, solverMs: solverMs, known: knownHits, vacuity: vacuity}
 	writeEvidenceFull(evPath, *prop, *tier, seed, ev, wall, violations, discharged, len(obls))
 	fmt.Printf("%s: %d obligations, %d discharged, %d known findings, %d violations, %d functions, %.1fs\n", *prop, len(obls), discharged, knownHits, violations, len(fnames), wall)
 	if violations > 0 {
@@ -426,6 +466,7 @@ type evidenceData struct {
 	unclaimed []string
 	solverMs  int64
 	known     int
+	vacuity   map[string]string
 }
 
 var standingAssumptions = []string{
@@ -468,6 +509,7 @@ func writeEvidenceFull(path, prop, tier string, seed int, ev evidenceData, wall 
 		"solver_ms_total":          ev.solverMs,
 		"known_findings_hit":       ev.known,
 		"engine_notes":             ev.notes,
+		"vacuity_guard":            ev.vacuity,
 	}
 	if tier != "quick" && tier != "thorough" {
 		tier = "quick"
